@@ -141,12 +141,12 @@ Fixpoint sufs_prefix (a v : list (skind * option bytes)) : bool :=
   end.
 Definition glob_match (a v : ver) : bool :=
   match v_rev a, v_sufs a, v_letter a with
-  | Some _, _, _ => is_eq (vercmp v a)
+  | Some _, _, _ => is_eq (vercmp a v)
   | None, _ :: _, _ =>
-      is_eq (nums_cmp (v_nums v) (v_nums a)) && is_eq (letter_cmp (v_letter v) (v_letter a))
+      is_eq (nums_cmp (v_nums a) (v_nums v)) && is_eq (letter_cmp (v_letter a) (v_letter v))
       && sufs_prefix (v_sufs a) (v_sufs v)
   | None, [], Some _ =>
-      is_eq (nums_cmp (v_nums v) (v_nums a)) && is_eq (letter_cmp (v_letter v) (v_letter a))
+      is_eq (nums_cmp (v_nums a) (v_nums v)) && is_eq (letter_cmp (v_letter a) (v_letter v))
   | None, [], None => nums_prefix (v_nums a) (v_nums v)
   end.
 
@@ -158,7 +158,7 @@ Definition ver_match (op : vop) (a v : ver) : bool :=
   | OpEq => is_eq (vercmp v a)
   | OpGe => negb (is_lt (vercmp v a))
   | OpGt => is_gt (vercmp v a)
-  | OpTilde => is_eq (vercmp (norev v) (norev a))      (* any revision of exactly that version *)
+  | OpTilde => is_eq (vercmp (norev a) (norev v))      (* any revision of exactly that version *)
   | OpGlob => glob_match a v
   end.
 
